@@ -1070,9 +1070,14 @@ mod pipeline {
         /// finish, effectively detaching it.
         ///
         /// [`Popen::communicate`]: struct.Popen.html#method.communicate
-        pub fn communicate(mut self) -> PopenResult<Communicator> {
-            self.cmds = self.cmds.into_iter().map(|cmd| cmd.detached()).collect();
-            let comm = self.setup_communicate()?.0;
+        pub fn communicate(self) -> PopenResult<Communicator> {
+            let (comm, mut v) = self.setup_communicate()?;
+            // Detach only once the whole pipeline is running: if a command
+            // fails to start, the ones started before it must still be
+            // waited for, or they are left behind as zombies.
+            for p in &mut v {
+                p.detach();
+            }
             Ok(comm)
         }
 
